@@ -50,6 +50,27 @@ add("C20", "E1-explore",
     "A counting callback on tracks.refresh is read around every call in the bounded space: accepted top-level action / successful undo / redo = exactly one emission (payload = new node for add-node and node-creating paint), refused action = none. Nested composite actions are covered through forced add-edge/add-node, swap and paint events.",
     E1NOTE, MC, "DESIGN.md 4 C20")
 
+SEGNOTE = "Bounded: 6-7 hand seeds with rectangular masks in 4 frames of 4x6 (2D) / 2x4x6 (3D) pixels, stroke menu of DESIGN.md 3.2 (inside / whole / straddling / two masks / background x erase / every label of the frame / new label x track ids x force), BFS depth 1-3. skimage.regionprops trusted."
+E2M = "explicit-state model checking of the implementation against a reference model (exhaustive enumeration of all call sequences up to a length bound, lock-step list+cursor / set model, no state merging)"
+
+add("C02", "E2-histories",
+    "All sequences over {edit_1..edit_6, undo, redo} up to length 5 (quick) / 6-7 (thorough) for three menus (forced add-edge / add-node nesting other user actions, swap, delete, set-attr; paint strokes that nest delete-node / add-node) plus all sequences over the full state-dependent alphabet + undo + redo up to length 2-3 are executed from scratch on fresh real objects in lock step with a 10-line timeline model (list of observed states + cursor, undone steps appended in reverse). Checked after every call: return value, state == timeline[cursor], stack growth = 1 per top-level action, False step changes nothing; at every leaf undo-until-False must visit timeline[cursor::-1]. C03-C06 invariants are re-checked after every undo/redo.",
+    "Bounded by menu and length; no state merging (futures depend on the hidden stacks). The model/implementation binding is total within the bound: every enumerated sequence is an implementation trace.",
+    E2M, "DESIGN.md 4 C02")
+add("C07", "E1-explore",
+    "In segmentation worlds (2D+t and 3D+t) every reachable state and every state after undo/redo is checked for label<->node one-to-one correspondence (every node labels >=1 pixel and only in its frame, every label is a node, get_pixels exact); every paint/erase transition is checked byte-for-byte against the array as painted by the driver, undo against the pre-paint bytes, redo against the painted bytes.",
+    SEGNOTE, MC, "DESIGN.md 4 C07")
+add("C08", "E1-explore",
+    "For every reachable state of segmentation worlds with scale None / isotropic / anisotropic and feature subsets {core, +circularity, +ellipse axes, all regionprops} in 2D and 3D, after every edit, undo and redo: area and position vs an independent numpy reference (count x voxel, scaled mean index), and every enabled regionprops feature vs a from-scratch SolutionTracks built on a copy of the array (exact equality).",
+    SEGNOTE + " numpy reference uses rel_tol 1e-12; differential oracle is exact.", MC, "DESIGN.md 4 C08")
+add("C09", "E1-explore",
+    "For every reachable state of segmentation worlds with iou enabled (consecutive-frame and frame-skipping edges with non-trivial overlap), after every edit, undo and redo: stored IoU of every edge vs exact Fraction |A&B|/|A|B| on the array, and incremental value vs bulk value computed by a from-scratch twin with enable_features(['iou']). Enabling iou at any point of a history is covered by the C10 sequences.",
+    SEGNOTE, MC, "DESIGN.md 4 C09")
+add("C10", "E2-histories",
+    "All sequences up to length 3-4 (quick) / 4-5 (thorough) over {enable(F), disable(F), enable/disable(unknown, also listed after a valid key), edits, protected set-attr, undo, redo} on segmentation and non-segmentation tracks built with and without a pre-built FeatureDict, in lock step with a set model (static + enabled). After every call: registry == static+enabled, annotator active set == enabled, all values of every enabled feature equal the C04/C05/C06/C08/C09 reference oracles, raw values of disabled features unchanged by edits, unknown key -> KeyError and identical snapshot, managed attributes and time refused by set-attr whether enabled or not.",
+    "Two genuine defects around switching the core id features of a SolutionTracks are recorded in known_findings.json (KF-C10-*) and reported as KNOWN-FINDING; everything outside those two history classes is reported as VIOLATION.",
+    E2M, "DESIGN.md 4 C10")
+
 NOT_APPLICABLE = {}
 
 PENDING_REASON = "check not built yet in this round (planned, see DESIGN.md section 4); not claimed until its command exists"
